@@ -40,19 +40,32 @@ def _alarm(signum, frame):
     raise Timeout()
 
 
+# per-process registry of call outcomes by routine name: {name: {'ok': n, 'exc': n, 'timeout': n}}; pmap ships it back
+# from the workers and Check.finish() turns "a routine that never once returned normally" into a break
+_OUTCOMES = {}
+
+
+def _record(f, status):
+    name = getattr(f, '__name__', None) or type(f).__name__
+    d = _OUTCOMES.setdefault(name, {'ok': 0, 'exc': 0, 'timeout': 0})
+    d[status] += 1
+
+
 def call(f, *a, t=3.0, **k):
     """Run f under a SIGALRM budget with stdout swallowed -> ('ok', value) | ('exc', 'Type: msg') | ('timeout', None)."""
     signal.signal(signal.SIGALRM, _alarm)
     signal.setitimer(signal.ITIMER_REAL, t)
     try:
         with contextlib.redirect_stdout(io.StringIO()):
-            return ('ok', f(*a, **k))
+            r = ('ok', f(*a, **k))
     except Timeout:
-        return ('timeout', None)
+        r = ('timeout', None)
     except Exception as e:  # noqa
-        return ('exc', '%s: %s' % (type(e).__name__, str(e)[:200]))
+        r = ('exc', '%s: %s' % (type(e).__name__, str(e)[:200]))
     finally:
         signal.setitimer(signal.ITIMER_REAL, 0)
+    _record(f, r[0])
+    return r
 
 
 def exc_kind(msg):
@@ -223,7 +236,9 @@ def kv(line):
 # ------------------------------------------------------------------ helpers for inputs
 
 def mat_str(A):
-    return ','.join(str(int(x)) for x in np.asarray(A).ravel())
+    A = np.asarray(A, dtype=float).ravel()
+    assert np.all(A == np.round(A)), 'mat_str: non-integer cell %r would be truncated' % (A[A != np.round(A)][:3],)
+    return ','.join(str(int(x)) for x in A)
 
 
 def frac_str(x):
@@ -259,15 +274,34 @@ def digest(obj):
     return hashlib.sha1(json.dumps(obj, sort_keys=True, default=str).encode()).hexdigest()[:12]
 
 
+def _pmap_worker(fx):
+    func, x = fx
+    _OUTCOMES.clear()
+    r = func(x)
+    return r, {k: dict(v) for k, v in _OUTCOMES.items()}
+
+
+def _merge_outcomes(o):
+    for k, v in o.items():
+        d = _OUTCOMES.setdefault(k, {'ok': 0, 'exc': 0, 'timeout': 0})
+        for s_, n_ in v.items():
+            d[s_] = d.get(s_, 0) + n_
+
+
 def pmap(func, items, procs=None):
-    """multiprocessing map that keeps the SIGALRM watchdog usable in workers"""
+    """multiprocessing map that keeps the SIGALRM watchdog usable in workers (and ships call outcomes back)"""
     import multiprocessing as mp
     procs = procs or min(16, os.cpu_count() or 4)
     if len(items) < 2 * procs:
         return [func(x) for x in items]
     ctx = mp.get_context('fork')
+    saved = {k: dict(v) for k, v in _OUTCOMES.items()}
     with ctx.Pool(procs) as pool:
-        return pool.map(func, items, chunksize=max(1, len(items) // (procs * 8)))
+        res = pool.map(_pmap_worker, [(func, x) for x in items], chunksize=max(1, len(items) // (procs * 8)))
+    _OUTCOMES.clear(); _merge_outcomes(saved)
+    for _, o in res:
+        _merge_outcomes(o)
+    return [r for r, _ in res]
 
 
 # ------------------------------------------------------------------ the Check object
@@ -397,7 +431,19 @@ class Check:
         return None
 
     # -- finish
+    def _never_ok(self):
+        """A routine called at least 8 times under the watchdog that never once returned normally (always raised
+        or always timed out) cannot be said to satisfy anything: report it as a break unless the check lists it in
+        `never_ok_exempt` (routines known not to run in this environment, or streams that must be rejected)."""
+        exempt = getattr(self, 'never_ok_exempt', set()) or set()
+        for name, d in sorted(_OUTCOMES.items()):
+            tot = sum(d.values())
+            if tot >= 8 and d.get('ok', 0) == 0 and name not in exempt and not name.startswith('<'):
+                self.breaks.append({'kind': 'never-returns-normally', 'routine': name, 'outcomes': d})
+        self.dist['call_outcomes'] = {k: v for k, v in sorted(_OUTCOMES.items())}
+
     def finish(self):
+        self._never_ok()
         os.makedirs(os.path.join(VERIF, 'replays'), exist_ok=True)
         EVD = os.environ.get('BCT_EVIDENCE', os.path.join(VERIF, 'evidence'))
         os.makedirs(EVD, exist_ok=True)
